@@ -1,5 +1,6 @@
 import ExecModel.Proofs.SysCeil
 import ExecModel.Proofs.SysFifo
+import ExecModel.Proofs.SysOnce
 /-!
   C11 — Process model: fresh process per call, or persistent worker running in order.
 
@@ -30,6 +31,21 @@ theorem single_worker_fifo {script : List Cmd} {s : State Val Err}
     (h : Reachable cfg eval cancelErr script s) (hb : cfg.block = some 1)
     (hd : ∀ i, depsOf cfg i = []) : s.sentLog.Pairwise (· < ·) :=
   Sys.single_worker_fifo cfg eval cancelErr h hb hd
+
+/-- **Two different workers never serve the same call** (`served` is the list of calls handed to
+    the worker's process), and no worker serves a call twice; in every configuration. -/
+theorem served_disjoint {script : List Cmd} {s : State Val Err}
+    (h : Reachable cfg eval cancelErr script s) {k1 k2 : Nat} {w1 w2 : Worker Val Err}
+    (hne : k1 ≠ k2) (h1 : s.wk[k1]? = some w1) (h2 : s.wk[k2]? = some w2) :
+    ∀ i ∈ w1.served, i ∉ w2.served :=
+  Sys.served_disjoint cfg eval cancelErr h hne h1 h2
+
+/-- **A worker's process receives each call at most once, and only calls recorded in the global
+    hand-over log.** -/
+theorem served_nodup {script : List Cmd} {s : State Val Err}
+    (h : Reachable cfg eval cancelErr script s) {k : Nat} {w : Worker Val Err}
+    (hk : s.wk[k]? = some w) : w.served.Nodup ∧ ∀ i ∈ w.served, i ∈ s.sentLog :=
+  Sys.served_nodup_sub cfg eval cancelErr h hk
 
 /-! Non-vacuity: one worker behind the resolver, three calls, the second cancelled while queued. -/
 def exCfg : Cfg := { resolver := true, block := some 1, calls := [{}, {}, {}] }
